@@ -64,17 +64,12 @@ def decision_check(res, inproc, rng, n):
     for (a, names, fsrc), ia, ra in zip(cases, impl, rpf):
         if not ia.startswith("ok "):
             continue
-        tc = [p for p in ia.split(" ") if p.startswith("tc=")][0][3:]
-        # tc=Trait(tokens...) may contain spaces: re-extract
-        i0 = ia.index(" tc=") + 4
-        i1 = ia.index(" tcf=")
-        tc = ia[i0:i1]
+        tc = C.hook_fields(ia)["tc"]
         want = oracle_decision(ra, a["args"])
         got = None
         if tc != "-":
-            tr = tc[:tc.index("(")]
-            expr = G.strip_ws(tc[tc.index("(") + 1:-1])
-            got = (tr, expr)
+            tr, _, expr = tc.partition("\x1f")
+            got = (tr, G.strip_ws(expr))
         if want is None:
             n_write += 1
             ok = got is None
